@@ -791,6 +791,16 @@ def _execute(scn, keep_objects=False, prev_ctx=None):
                                 H['rules_built'][i] = None
                             except Exception as ex:      # noqa
                                 H['rules_built'][i] = _exc(ex)
+                if op.get('new_control') and ctx.control is not None:
+                    # the user builds a new, identical controller for this
+                    # run (same rules, new objects) instead of re-using the
+                    # first one
+                    ctx.control = g.motor_control.PWMControl(powertrain=pt)
+                    for i, rs in enumerate(scn.get('rules') or []):
+                        if (rs.get('from_run') or 0) <= ctx.run_ordinal and \
+                                H['rules_built'][i] is None:
+                            ctx.control.add_rule(build_rule(ctx, i, rs))
+                    rec['new_control'] = True
                 rec['run_ordinal'] = ctx.run_ordinal
                 ctx.run_ordinal += 1
                 if solver is None or op.get('solver') == 'new':
